@@ -7,6 +7,7 @@ import (
 	"strings"
 	"sync"
 	"sync/atomic"
+	"time"
 
 	"github.com/paulmach/osm"
 
@@ -892,17 +893,15 @@ func c18Rel(ck *c18Checker) {
 		{"near-miss-type-keys", []c18Tag{{"Type", "multipolygon"}, {"type ", "boundary"}, {"type:", "multipolygon"}, {"TYPE", "boundary"}, {"types", "multipolygon"}, {"typ", "boundary"}, {"", "multipolygon"}}},
 		{"values-as-keys", []c18Tag{{"multipolygon", "yes"}, {"boundary", "type"}, {"name", "multipolygon"}}},
 	}
-	members := []struct {
-		label string
-		ms    osm.Members
-	}{
-		{"no-members", nil},
-		{"members", osm.Members{{Type: osm.TypeWay, Ref: 1, Role: "outer"}, {Type: osm.TypeWay, Ref: 2, Role: "inner"}, {Type: osm.TypeNode, Ref: 3, Role: "admin_centre"}}},
-	}
-	run := func(key, sig string, want bool, ms osm.Members, layouts ...[]c18Tag) {
-		for _, l := range layouts {
+	members := c18MemberShapes()
+	metas := c18RelMetas()
+	run := func(key, sig string, want bool, m c18MemberShape, layouts ...[]c18Tag) {
+		for li, l := range layouts {
 			c18TagSet(l) // no repeated keys
-			r := &osm.Relation{ID: 5, Visible: true, Members: ms}
+			// the relation's own identity / metadata rotates with the layout: it must not matter
+			meta := metas[(li+len(l)+len(m.ms))%len(metas)]
+			r := meta.mk()
+			r.Members = m.ms
 			if l != nil {
 				r.Tags = make(osm.Tags, len(l))
 				for i, t := range l {
@@ -911,15 +910,17 @@ func c18Rel(ck *c18Checker) {
 			}
 			got, stable, pan := c18CallRel(r)
 			ck.res.Event(2)
+			ck.res.Put("relation_metas", meta.label)
 			if pan != nil {
-				ck.violate(key+"/panic", "Relation.Polygon() panicked (%v) on tags=%s", pan, c18FmtTags(l))
+				ck.violate(key+"/panic", "Relation.Polygon() panicked (%v) on tags=%s members=%s", pan, c18FmtTags(l), m.label)
 			} else if !stable {
-				ck.violate(key+"/unstable", "two calls of Relation.Polygon() disagree on tags=%s", c18FmtTags(l))
+				ck.violate(key+"/unstable", "two calls of Relation.Polygon() disagree on tags=%s members=%s", c18FmtTags(l), m.label)
 			} else if got != want {
-				ck.violate(key, "Relation.Polygon()=%v, want %v (type must be multipolygon or boundary): tags=%s members=%d", got, want, c18FmtTags(l), len(ms))
+				ck.violate(key, "Relation.Polygon()=%v, want %v (the answer is a function of the type tag only: multipolygon or boundary): tags=%s members=%s (%d) relation=%s",
+					got, want, c18FmtTags(l), m.label, len(m.ms), meta.label)
 			}
 			if len(ck.samples) < 3 {
-				ck.samples = append(ck.samples, map[string]any{"relation_tags": c18TagPairs(l), "members": len(ms), "expected": want, "observed": got})
+				ck.samples = append(ck.samples, map[string]any{"relation_tags": c18TagPairs(l), "members": m.label, "relation": meta.label, "expected": want, "observed": got})
 			}
 		}
 		ck.res.Eval(sig)
@@ -929,9 +930,9 @@ func c18Rel(ck *c18Checker) {
 			// no type tag at all
 			id := fmt.Sprintf("type=(absent)/%s/%s", cx.label, m.label)
 			if cx.tags == nil {
-				run("C18/rel/"+id, "rel/"+id, false, m.ms, nil, []c18Tag{})
+				run("C18/rel/"+id, "rel/"+id, false, m, nil, []c18Tag{})
 			} else {
-				run("C18/rel/"+id, "rel/"+id, false, m.ms, cx.tags, c18Reverse(cx.tags))
+				run("C18/rel/"+id, "rel/"+id, false, m, cx.tags, c18Reverse(cx.tags))
 			}
 			for _, t := range types {
 				want := t.V == "multipolygon" || t.V == "boundary"
@@ -944,9 +945,125 @@ func c18Rel(ck *c18Checker) {
 					layouts = append(layouts, mid)
 				}
 				id := fmt.Sprintf("type=%s/%s/%s", t.Label, cx.label, m.label)
-				run("C18/rel/"+id, "rel/"+id, want, m.ms, layouts...)
+				run("C18/rel/"+id, "rel/"+id, want, m, layouts...)
 			}
 		}
+		ck.res.Put("member_shapes", m.label)
+	}
+	// every relation identity / metadata variant × every member shape × the deciding types
+	for _, meta := range metas {
+		for _, m := range members {
+			for _, t := range []string{"multipolygon", "boundary", "route", ""} {
+				r := meta.mk()
+				r.Members = m.ms
+				r.Tags = osm.Tags{{Key: "name", Value: "x"}, {Key: "type", Value: t}}
+				got, stable, pan := c18CallRel(r)
+				ck.res.Event(2)
+				want := t == "multipolygon" || t == "boundary"
+				key := fmt.Sprintf("C18/rel/type=%s/relation=%s/%s", t, meta.label, m.label)
+				if pan != nil || !stable || got != want {
+					ck.violate(key, "Relation.Polygon()=%v (panic %v, stable %v), want %v: type=%q relation=%s members=%s", got, pan, stable, want, t, meta.label, m.label)
+				}
+				ck.res.Eval(fmt.Sprintf("rel/meta/%s/%s/type=%s", meta.label, m.label, t))
+			}
+		}
+	}
+	// A tag list that repeats the type key is not a tag set and the statement does not say
+	// which occurrence counts (Tags.Find returns the first, undocumented): asserted only where
+	// every occurrence gives the same answer, otherwise run and counted.
+	dupVals := []string{"multipolygon", "boundary", "route", "", "Multipolygon"}
+	isArea := func(v string) bool { return v == "multipolygon" || v == "boundary" }
+	for _, a := range dupVals {
+		for _, b := range dupVals {
+			for _, m := range members {
+				r := &osm.Relation{ID: 5, Members: m.ms, Tags: osm.Tags{{Key: "type", Value: a}, {Key: "note", Value: "x"}, {Key: "type", Value: b}}}
+				got, _, pan := c18CallRel(r)
+				ck.res.Event(2)
+				switch {
+				case pan != nil:
+					ck.violate(fmt.Sprintf("C18/rel/duplicate-type/%s,%s/%s/panic", a, b, m.label), "Relation.Polygon() panicked (%v) on a repeated type key", pan)
+				case isArea(a) == isArea(b):
+					if got != isArea(a) {
+						ck.violate(fmt.Sprintf("C18/rel/duplicate-type/%s,%s/%s", a, b, m.label), "Relation.Polygon()=%v, want %v: both type=%q and type=%q say so; members=%s", got, isArea(a), a, b, m.label)
+					}
+					ck.res.Eval(fmt.Sprintf("rel/dup/%s,%s/%s", a, b, m.label))
+				default:
+					if got == isArea(a) {
+						ck.res.Add("duplicate_type_first_occurrence_wins", 1)
+					} else {
+						ck.res.Add("duplicate_type_other_occurrence_wins", 1)
+					}
+				}
+			}
+		}
+	}
+}
+
+// c18MemberShapes: every shape of member list. The relation answer must not depend on it.
+type c18MemberShape struct {
+	label string
+	ms    osm.Members
+}
+
+func c18MemberShapes() []c18MemberShape {
+	n := func(ref int64, role string) osm.Member { return osm.Member{Type: osm.TypeNode, Ref: ref, Role: role} }
+	w := func(ref int64, role string) osm.Member { return osm.Member{Type: osm.TypeWay, Ref: ref, Role: role} }
+	r := func(ref int64, role string) osm.Member {
+		return osm.Member{Type: osm.TypeRelation, Ref: ref, Role: role}
+	}
+	many := func(t osm.Type, k int) osm.Members {
+		ms := make(osm.Members, k)
+		for i := range ms {
+			ms[i] = osm.Member{Type: t, Ref: int64(100 + i)}
+		}
+		return ms
+	}
+	annotatedWay := w(7, "outer")
+	annotatedWay.Version, annotatedWay.ChangesetID, annotatedWay.Lat, annotatedWay.Lon, annotatedWay.Orientation = 3, 9, 1.5, 2.5, 1
+	annotatedWay.Nodes = osm.WayNodes{{ID: 1, Lat: 1, Lon: 1}, {ID: 2, Lat: 1, Lon: 2}, {ID: 3, Lat: 2, Lon: 2}, {ID: 1, Lat: 1, Lon: 1}}
+	annotatedNode := n(8, "label")
+	annotatedNode.Version, annotatedNode.Lat, annotatedNode.Lon = 2, 50.1, 8.6
+	return []c18MemberShape{
+		{"members-nil", nil},
+		{"members-empty", osm.Members{}},
+		{"one-node", osm.Members{n(1, "label")}},
+		{"one-way", osm.Members{w(1, "outer")}},
+		{"one-relation", osm.Members{r(1, "subarea")}},
+		{"only-nodes", osm.Members{n(1, "admin_centre"), n(2, "label"), n(3, "")}},
+		{"only-relations", osm.Members{r(1, "subarea"), r(2, "subarea"), r(3, "")}},
+		{"nodes+relations", osm.Members{n(1, "label"), r(2, "subarea"), n(3, "admin_centre"), r(4, "")}},
+		{"only-ways", osm.Members{w(1, "outer"), w(2, "inner"), w(3, "")}},
+		{"way-first", osm.Members{w(1, "outer"), n(2, "label"), r(3, "subarea")}},
+		{"way-last", osm.Members{n(2, "label"), r(3, "subarea"), w(1, "outer")}},
+		{"way-middle", osm.Members{n(2, "label"), w(1, "outer"), r(3, "subarea")}},
+		{"annotated-way+node", osm.Members{annotatedNode, annotatedWay}},
+		{"annotated-node-only", osm.Members{annotatedNode}},
+		{"unknown-member-types", osm.Members{{Type: "", Ref: 1}, {Type: "changeset", Ref: 2}, {Type: "Way", Ref: 3, Role: "outer"}}},
+		{"self-reference", osm.Members{r(5, "")}},
+		{"500-nodes", many(osm.TypeNode, 500)},
+		{"500-relations", many(osm.TypeRelation, 500)},
+		{"500-ways", many(osm.TypeWay, 500)},
+	}
+}
+
+// c18RelMetas: identity / metadata of the relation itself. Must not matter either.
+type c18RelMeta struct {
+	label string
+	mk    func() *osm.Relation
+}
+
+func c18RelMetas() []c18RelMeta {
+	ts := time.Date(2020, 2, 3, 4, 5, 6, 0, time.UTC)
+	return []c18RelMeta{
+		{"id5-visible", func() *osm.Relation { return &osm.Relation{ID: 5, Visible: true} }},
+		{"zero-value", func() *osm.Relation { return &osm.Relation{} }},
+		{"negative-id", func() *osm.Relation { return &osm.Relation{ID: -3, Version: 0} }},
+		{"big-id-v65535", func() *osm.Relation { return &osm.Relation{ID: 1<<40 + 1, Version: 65535, Visible: true} }},
+		{"deleted-version", func() *osm.Relation { return &osm.Relation{ID: 9, Version: 7, Visible: false, Timestamp: ts} }},
+		{"full-metadata", func() *osm.Relation {
+			return &osm.Relation{ID: 77, User: "someone", UserID: 12, Visible: true, Version: 3, ChangesetID: 4, Timestamp: ts,
+				Updates: osm.Updates{{Index: 0, Version: 2, Timestamp: ts}}, Bounds: &osm.Bounds{MinLat: 1, MaxLat: 2, MinLon: 3, MaxLon: 4}}
+		}},
 	}
 }
 
@@ -1171,7 +1288,7 @@ func init() {
 			"(pairs) all ordered pairs of rule keys × {no, \"\", yes, a value listed under another key, every own listed value}² × the five area classes, both orders; " +
 			"(perm) every key × representative value × area class with two unrelated tags under ALL permutations; (unrelated) 57 near-miss keys alone, in all ordered pairs, all together, and around every key × representative value; " +
 			"(area) 24 spellings of the area value × 8 tag contexts; (pre) 31 node-ref shapes (0..6 and 2000 refs, open, closed, inner loops, negative / zero / >2^32 refs) × 12 tag sets; 40 annotation variants of the two end way-nodes (every subset of version/changeset/lat/lon differing, one-sided, NaN) × closed-by-ref / open-by-ref × 3 rings × 12 tag sets; " +
-			"(rel) 33 type values + absent × 6 tag contexts × with/without members × type first/last/middle; (multi) PRNG sets of 0–6 rule keys + area + unrelated tags under reverse, every rotation and 4 shuffles. " +
+			"(rel) 33 type values + absent × 6 tag contexts × 19 member-list shapes (nil, empty, one node / way / relation, only nodes, only relations, nodes+relations, only ways, way first / middle / last, annotated, unknown member types, self reference, 500 of a kind) × type first/last/middle, with the relation's own id / version / visibility / metadata (6 variants) rotating, plus the full metadata × member shape × {multipolygon, boundary, route, empty} grid and repeated type keys where both occurrences agree; (multi) PRNG sets of 0–6 rule keys + area + unrelated tags under reverse, every rotation and 4 shuffles. " +
 			"A signature is the tag set itself for single (key, value, area class), the (key:class, key:class, area) triple for pairs, (key:class, area, n) for perm, the named shape × tag set for pre, (type, context, members) for rel and a (rule keys, area, unrelated, shape, answer) class for multi; re-orderings and open/3-ref repeats of an already counted set are trivial. distinct_nontrivial counts distinct signatures.",
 		Assumptions: []string{
 			"the CONTENT of the rule table (which keys, which rule kind, which values) is trusted to be the published tyrasd/osm-polygon-features list: /verif's copy was transcribed without network access by reading the library's embedded JSON entry by entry and comparing it with the published list as known, restructured into hash maps by rule kind, and pinned by counts and a checksum computed from a second transcription; what is tested is the library's lookup logic, init-time sorting, per-value answers, area / 'no' / closedness handling and order independence — not whether upstream has since changed the list",
@@ -1180,7 +1297,7 @@ func init() {
 			"comparisons are exact strings as in the published rules: 'No', 'no ' and ' no' are values other than 'no'; near-miss keys (case, blanks, prefixes such as building:levels) are unrelated tags",
 			"a tag list that repeats a key is not a tag set; never generated",
 			"closedness is equality of the first and last node ref with more than three refs, whatever the refs are (negative, zero, > 2^32, there-and-back rings); the annotations of the two end way-nodes (version, changeset, lat, lon, NaN, one-sided) do not matter and are enumerated in every combination; only a 4-ref way whose refs are all the same node is run but not asserted",
-			"Relation.Polygon() is compared for every listed type spelling; members, other tags (including area=no) and tag order must not matter",
+			"Relation.Polygon() is compared for every listed type spelling; the member list (any shape, with or without way members), the relation's id / version / visibility / metadata, other tags (including area=no) and tag order must not matter; a tag list that repeats the type key is asserted only where every occurrence gives the same answer (which occurrence wins is counted, not asserted)",
 		},
 		Cases: func(tier string, seed uint64) []fw.Case {
 			var cs []fw.Case
